@@ -201,7 +201,21 @@ def r3_privacy_dominates_foreign_varref(ctx):
             anodes = [nd for nd in g.nodes if nd.ast is a]
             for c in refs:
                 rn = [nd for nd in g.nodes if nd.kind == "stmt" and P.contains(nd.ast, c)]
-                priv = [nd for nd in g.nodes if nd.kind == "test" and "SYM_PRIVATE_META_KEY" in P.un(nd.ast) and vname in P.un(nd.ast)]
+                def _is_private_test(e, vname=vname):
+                    """the private-metadata test on `vname`: written out, or a module-level predicate that is it"""
+                    t = P.un(e)
+                    if "SYM_PRIVATE_META_KEY" in t and vname in t:
+                        return True
+                    for c2 in ast.walk(e):
+                        if isinstance(c2, ast.Call) and isinstance(c2.func, ast.Name) and len(c2.args) == 1 and P.un(c2.args[0]) == vname:
+                            hh = P.find_def(tree, c2.func.id)
+                            if hh is not None and isinstance(hh, P.FUNC) and len(hh.args.args) == 1:
+                                rets_h = [P.un(r.value) for r in ast.walk(hh) if isinstance(r, ast.Return) and r.value is not None]
+                                p0 = hh.args.args[0].arg
+                                if len(rets_h) == 1 and "SYM_PRIVATE_META_KEY" in rets_h[0] and f"{p0}.meta" in rets_h[0]:
+                                    return True
+                    return False
+                priv = [nd for nd in g.nodes if nd.kind == "test" and _is_private_test(nd.ast)]
                 def meta_none(x, y, lab, vname=vname):
                     return x.kind == "test" and P.un(x.ast) == f"{vname}.meta is not None" and lab is False
                 reach = g.reach(anodes, avoid=priv, avoid_edges=meta_none)
